@@ -335,11 +335,24 @@ VIEW_PRE = PRE + ("Definition stepv (s : step) := (st_head s, st_count s, st_tic
 
 
 def both(tag, cases, bins):
-    path = vf.write_cases(tag, cases)
-    rc, out = vf.run_bin(bins["c09"], path)
-    if rc:
-        raise vf.Broken(f"harness c09 exited {rc}: {out[-800:]}")
-    lines = [l for l in out.splitlines() if l.startswith("ids=")]
+    # the harness is run on chunks in parallel (each case is independent)
+    import concurrent.futures
+    nch = min(8, max(1, len(cases) // 40))
+    chunks = [cases[i::nch] for i in range(nch)]
+    def one(i):
+        rc, out = vf.run_bin(bins["c09"], vf.write_cases(f"{tag}-{i}", chunks[i]), timeout=1500)
+        if rc:
+            raise vf.Broken(f"harness c09 exited {rc}: {out[-800:]}")
+        ls = [l for l in out.splitlines() if l.startswith("ids=")]
+        if len(ls) != len(chunks[i]):
+            raise vf.Broken(f"harness c09 printed {len(ls)} lines for {len(chunks[i])} cases: {out[-600:]}")
+        return ls
+    with concurrent.futures.ThreadPoolExecutor(max_workers=nch) as ex:
+        parts = list(ex.map(one, range(nch)))
+    lines = [None] * len(cases)
+    for i, part in enumerate(parts):
+        for j, l in enumerate(part):
+            lines[i + j * nch] = l
     if len(lines) != len(cases):
         raise vf.Broken(f"harness c09 printed {len(lines)} lines for {len(cases)} cases: {out[-600:]}")
     impl, oracle, stats, terms, rks = [], [], [], [], []
